@@ -48,9 +48,43 @@ def rule_response_routing(ctx, res):
     s.run()
     res.paths += len(s.paths)
 
+    def parsed_tid(t):
+        """the TransactionID parsed inside this function from its raw-bytes parameter: payload of
+        `TransactionID::from_bytes(bytes)` = Some, or of `from_bytes(bytes).ok_or(..)?`.  Returns the from_bytes call."""
+        t = strip_transparent(t)
+        if not (isinstance(t, tuple) and len(t) == 3 and t[0] == 'field' and t[2] == '0' and isinstance(t[1], tuple) and t[1][0] == 'downcast' and t[1][2] in ('Some', 'Continue')):
+            return None
+        inner = strip_transparent(t[1][1])
+        if t[1][2] == 'Continue':
+            if not (inner[0] == 'call' and inner[1].endswith('Try>::branch')):
+                return None
+            inner = strip_transparent(inner[2][0])
+            if inner[0] == 'call' and inner[1].split('::')[-1] in ('ok_or', 'ok_or_else'):
+                inner = strip_transparent(inner[2][0])
+        if inner[0] == 'call' and inner[1] == 'transaction::TransactionID::from_bytes' and is_param(root_of(strip_transparent(inner[2][0]))):
+            return inner
+        return None
+
     def is_tid_action(t):
         t = strip_transparent(t)
-        return t[0] == 'call' and t[1] == 'transaction::TransactionID::action_id' and is_param(root_of(strip_transparent(t[2][0])), 'trans_id')
+        if not (t[0] == 'call' and t[1] == 'transaction::TransactionID::action_id'):
+            return False
+        who = strip_transparent(t[2][0])
+        return is_param(root_of(who), 'trans_id') or parsed_tid(who) is not None
+
+    def tid_parse_test(lit):
+        """`from_bytes(param bytes)` is Some / `from_bytes(..).ok_or(..)?` continues: True / False, else None"""
+        rel, a, b2, truth = lit
+        if rel != 'variant' or not isinstance(a, tuple) or a[0] != 'call':
+            return None
+        if a[1] == 'transaction::TransactionID::from_bytes' and is_param(root_of(strip_transparent(a[2][0]))):
+            return option_is_some(b2)
+        if a[1].endswith('Try>::branch'):
+            inner = strip_transparent(a[2][0])
+            if inner[0] == 'call' and inner[1].split('::')[-1] in ('ok_or', 'ok_or_else') and strip_transparent(inner[2][0])[0] == 'call' \
+                    and strip_transparent(inner[2][0])[1] == 'transaction::TransactionID::from_bytes' and is_param(root_of(strip_transparent(strip_transparent(inner[2][0])[2][0]))):
+                return b2 == 0 if not isinstance(b2, tuple) else (0 not in b2[1] and None)
+        return None
 
     def lookup_hit(lit):
         rel, a, b2, truth = lit
@@ -71,8 +105,14 @@ def rule_response_routing(ctx, res):
     #   L            -> add_nodes, then the search's recv_response
     #   not L, R     -> add_nodes only
     #   neither      -> Err(UnsolicitedResponse), nothing touched
+    gate_inside = [False]
+
     def classify(lit, c):
         rel, a, b2, truth = lit
+        tp = tid_parse_test(lit)
+        if tp is not None:
+            gate_inside[0] = True
+            return ('T', bool(tp))
         if rel == 'variant' and isinstance(a, tuple) and a[0] == 'call' and a[1].split('::')[-1] in ('get_mut', 'get', 'remove') and field_chain(strip_transparent(a[2][0])) == ['lookups'] and is_tid_action(a[2][1]):
             if a[1].split('::')[-1] == 'remove':
                 raise Lost('the search is removed while routing a response')
@@ -93,6 +133,10 @@ def rule_response_routing(ctx, res):
         err = p.ret[0] == 'agg' and agg_variant(p.ret) == 'Err' and agg_variant(p.ret[2].get('0')) == 'UnsolicitedResponse'
         if err and not touched:
             return 'unsolicited'
+        bad_tid = (p.ret[0] == 'agg' and agg_variant(p.ret) == 'Err' and agg_variant(p.ret[2].get('0')) == 'InvalidTransactionId') or \
+                  (p.ret[0] == 'call' and p.ret[1].endswith('from_residual') and any(isinstance(x, tuple) and x and x[0] == 'agg' and str(x[1]).endswith('InvalidTransactionId') for x in lib.term_walk(p.ret)))
+        if bad_tid and not touched and added == 0 and not fwd:
+            return 'invalid-id'
         if added == 1 and fwd and not err:
             return 'search'
         if added == 1 and not fwd and not err:
@@ -101,7 +145,11 @@ def rule_response_routing(ctx, res):
 
     try:
         tab = lib.Table.build(s.complete_paths(), classify, outcome)
-        bad, n = tab.compare({'L': lib.BOOL, 'R': lib.BOOL}, lambda v: 'search' if v['L'] else 'refresh' if v['R'] else 'unsolicited')
+        if gate_inside[0]:
+            # the raw id is parsed here rather than by the caller: a malformed id must end in InvalidTransactionId with nothing touched
+            bad, n = tab.compare({'T': lib.BOOL, 'L': lib.BOOL, 'R': lib.BOOL}, lambda v: 'invalid-id' if not v['T'] else 'search' if v['L'] else 'refresh' if v['R'] else 'unsolicited')
+        else:
+            bad, n = tab.compare({'L': lib.BOOL, 'R': lib.BOOL}, lambda v: 'search' if v['L'] else 'refresh' if v['R'] else 'unsolicited')
         sites = ctx.calls_in(b, ADD_NODES)
         res.sites += len(sites)
         res.check(not bad and len(sites) >= 1, 'TABLE', b.path, 'a response reaches the table only for a live search (add_nodes + recv_response) or the refresh activity (add_nodes); '
@@ -114,6 +162,11 @@ def rule_response_routing(ctx, res):
         for e in p.effects:
             if e[0] == 'call' and e[1] == ADD_NODES:
                 check_add_nodes_args(res, b, e, 'rsp', 'addr')
+    return gate_inside[0] and not res_failed(res, 'response-routing')
+
+
+def res_failed(res, key):
+    return any(v.get('key', '').endswith(key) or key in (v.get('key') or '') for v in res.violations())
 
 
 def check_add_nodes_args(res, b, e, rsp_name, addr_name):
@@ -131,7 +184,7 @@ def check_add_nodes_args(res, b, e, rsp_name, addr_name):
     res.check(ok2, 'FLOW', b.path, 'hearsay handed to add_nodes is the nodes / nodes6 list of the same response', site=b.term(e[3])['sp'], detail=fmt(lst)[:200], key='hearsay-list')
 
 
-def rule_tid_gate(ctx, res, d):
+def rule_tid_gate(ctx, res, d, gate_inside=False):
     """Response arm: handle_incoming_response only behind TransactionID::from_bytes(..) = Some; 8-byte ids"""
     b = d.body
     from .c05 import paths_from_arm
@@ -151,6 +204,9 @@ def rule_tid_gate(ctx, res, d):
         tid = strip_transparent(calls[0][2][1])
         fb = find_calls(tid, 'TransactionID::from_bytes')
         good = bool(fb) and field_chain(strip_transparent(fb[0][2][0])) == ['transaction_id'] and is_param(root_of(strip_transparent(fb[0][2][0])), 'message')
+        if not fb and gate_inside:
+            # the raw id bytes are handed over and parsed by the router itself (its decision table has the parse as first test)
+            good = field_chain(tid) == ['transaction_id'] and is_param(root_of(tid), 'message')
         src = strip_transparent(calls[0][2][2])
         good = good and is_param(src, 'addr')
         if not good:
@@ -308,8 +364,8 @@ def run(ctx, res):
     common.rule_who_admits(ctx, res)
     common.rule_admission_filter(ctx, res)
     common.rule_find_node_identity(ctx, res)
-    rule_response_routing(ctx, res)
-    rule_tid_gate(ctx, res, d)
+    gate_inside = rule_response_routing(ctx, res)
+    rule_tid_gate(ctx, res, d, gate_inside=bool(gate_inside))
     rule_add_nodes_shape(ctx, res)
     rule_bootstrap_exchange(ctx, res)
     rule_routers(ctx, res)
